@@ -27,7 +27,7 @@ FLOORS = {"c04_nested_pairs": 40, "c04_entities_judged": 1500, "c04_placeholders
 MUST_REACH = ["AbstractModule.target_sequence", "AbstractVector.target_sequence", "AbstractVector.placeholder_sequence"]
 NEEDS_REGISTRIES = True
 BUDGET_S = {"quick": 900, "thorough": 7200}
-MODES = ["own", "own", "extra-site", "other-class", "mutant", "short-tandem"]
+MODES = ["own", "own", "extra-site", "other-class", "mutant", "short-tandem", "own-other-strand"]
 
 
 def setup(tier):
@@ -140,6 +140,8 @@ def _variants(rng, cls, other_classes, count, run_max):
             yield mode, rot_left(s, rng.randrange(len(s)))
             continue
         s = gen.instance(rng, src.structure(), run_max=run_max) + gen.rand_dna(rng, rng.randint(0, 25))
+        if mode == "own-other-strand":
+            s = rc(s)          # the same plasmid deposited in the other orientation (a typed part then usually is not of its type)
         if mode == "extra-site":
             i = rng.randrange(len(s))
             s = s[:i] + rng.choice([site, rc(site)]) + s[i:]
